@@ -229,8 +229,17 @@ theorem invS_step (s s' : Sender) (e : SEv) (hi : InvS s) (hok : e.ok s) (h : st
               rw [List.count_cons]; simp [Ne.symm hcc]
             simp only [hcc, if_false, this]; exact h1
     · cases h
+  | loopReturn c =>
+    simp only [stepS] at h
+    split at h
+    · cases h
+    · simp only [Option.some.injEq] at h; subst h
+      exact { qinv := hi.qinv, balance := hi.balance, bound := hi.bound, proc := hi.proc, nodup := hi.nodup, once := hi.once,
+              nn := hi.nn, alive := hi.alive }
   | deliver c =>
     simp only [stepS] at h
+    split at h
+    · cases h
     cases ht : takeFlight c s.parked with
     | none => simp [ht] at h
     | some p =>
@@ -332,6 +341,7 @@ theorem evsOk_mono {n m : Nat} (h : n ≤ m) : ∀ es, EvsOk n es → EvsOk m es
   | .loopStop :: es, ho => evsOk_mono h es ho
   | .dequeue :: es, ho => evsOk_mono h es ho
   | .deliver _ :: es, ho => evsOk_mono h es ho
+  | .loopReturn _ :: es, ho => evsOk_mono h es ho
   | .pushDone _ :: es, ho => evsOk_mono h es ho
   | .closedExit _ :: es, ho => evsOk_mono h es ho
   | .stopExit _ :: es, ho => evsOk_mono h es ho
@@ -370,8 +380,15 @@ theorem heap_mono_stepS (s s' : Sender) (e : SEv) (h : stepS s e = some s') :
         | none => simp only [hres, Option.some.injEq] at h; subst h; exact hq .deq
         | some i => simp only [hres, Option.some.injEq] at h; subst h; exact hq .deq
     · cases h
+  | loopReturn c =>
+    simp only [stepS] at h
+    split at h
+    · cases h
+    · simp only [Option.some.injEq] at h; subst h; exact Nat.le_refl _
   | deliver c =>
     simp only [stepS] at h
+    split at h
+    · cases h
     cases ht : takeFlight c s.parked with
     | none => simp [ht] at h
     | some p => simp only [ht, Option.some.injEq] at h; subst h; exact Nat.le_refl _
